@@ -100,6 +100,9 @@ func DrawConfig(seed uint64, profile string) Config {
 		cfg.ArmedCrashes = r.Chance(1, 2)
 	}
 	cfg.Partition = r.Chance(1, 4)
+	if r.Chance(1, 2) {
+		cfg.DelayPct, cfg.DelayMax = []int{5, 15, 30}[r.Intn(3)], []int{60, 200, 500}[r.Intn(3)]
+	}
 	if hasByz && cfg.N >= 3 && r.Chance(1, 3) {
 		drawSplitAttack(&cfg, r)
 	}
@@ -190,7 +193,7 @@ func (w *World) nextAction() (simrt.Action, bool) {
 	}
 	var deliverable []cand
 	for _, v := range vs {
-		if its := w.relevantItems(v, part); len(its) > 0 {
+		if its := w.relevantItems(v, part, true); len(its) > 0 {
 			deliverable = append(deliverable, cand{v, its})
 		}
 	}
@@ -310,6 +313,9 @@ func (w *World) nextAction() (simrt.Action, bool) {
 		kind := []string{"prevote", "precommit", "prevote", "precommit", "propose"}[w.Rng.Intn(5)]
 		if w.proposerID(v.rs) == id && w.Rng.Chance(1, 2) {
 			kind, r = "propose", v.rs.Round
+			if w.Rng.Chance(1, 3) {
+				return simrt.Action{K: "byz", N: id, S: "propose-bad", A: h, B: r, C: int64(w.Rng.Intn(len(badBlockKinds)))}, true
+			}
 		}
 		return simrt.Action{K: "byz", N: id, S: kind, A: h, B: r, C: int64(w.Rng.Intn(4))}, true
 	case iTx:
